@@ -373,10 +373,13 @@ pub fn derive_block(input: TokenStream) -> TokenStream {
     {
         let first = in_names[0].clone();
         let rest = &in_names[1..];
+        // izip!() yields flat tuples `(a, b, c)`, which is what the closure
+        // below destructures. Chained `.zip()` nests them as `((a, b), c)` and
+        // fails to compile for three or more inputs.
         let it = if in_names.len() == 1 {
             quote! { #first.iter().take(n) }
         } else {
-            quote! { #first.iter().take(n)#(.zip(#rest.iter()))* }
+            quote! { itertools::izip!(#first.iter().take(n)#(, #rest.iter())*) }
         };
         if has_attr(&input.attrs, "sync", STRUCT_ATTRS) {
             let first_tags = &in_tag_names[0];
